@@ -243,10 +243,10 @@ func cmdCheck(args []string) {
 	findings := loadFindings()
 
 	type batch struct {
-		part   part
-		bin    string
-		res    []*sim.RunResult
-		errs   []string
+		part part
+		bin  string
+		res  []*sim.RunResult
+		errs []string
 	}
 	var batches []*batch
 	for _, pt := range p.Parts {
